@@ -66,7 +66,8 @@ META = [
  ("xlsb", "C03", "C03_no_panic_reader", "C06_xlsb_cells_reader_total", "worksheet_cells_reader + next_cell until the end", "all byte strings", "none"),
  ("xlsb", "C03", "C03_no_panic_range_ref", "C06_xlsb_worksheet_range_total", "Xlsb::worksheet_range_ref / worksheet_range (header row option, from_sparse)", "all sheet parts, all header-row options", "none"),
  ("xlsb", "C03", "C03_no_panic_sst", "C06_xlsb_shared_strings_total", "Xlsb::read_shared_strings", "all parts (present or not)", "none"),
- ("xlsb", "C03", "C03_no_panic_workbook", "C06_xlsb_workbook_range_total", "shared strings + styles environment + worksheet_range_ref", "all parts", "formats / date system given as values (styles.bin parsing itself is not modelled)"),
+ ("xlsb", "C03", "C03_no_panic_workbook", "C06_xlsb_workbook_range_total", "shared strings + styles environment + worksheet_range_ref", "all parts", "formats / date system given as values (styles.bin: C06_xlsb_read_styles_total)"),
+ ("xlsb", "C10", "C10_no_panic_xlsb_read_styles", "C06_xlsb_read_styles_total", "Xlsb::read_styles (xl/styles.bin: BrtFmt / BrtXF collections, every other record skipped whole)", "all parts (present or not)", "none"),
  ("xlsb", "C19", "C19_no_panic_wide_str", "C06_xlsb_wide_str_total", "xlsb wide_str", "all buffers", "Panic half only (no loop)"),
  ("xlsb", "C14", "C14_no_panic_parse_formula_xlsb", "C06_xlsb_parse_formula_total", "xlsb parse_formula (PtgMemFunc nesting bounded)", "all rgce byte strings", "Panic half only"),
  ("xlsb", "C14", "C14_no_panic_xlsb_read_names", "C06_xlsb_defined_names_total", "xlsb read_workbook: BrtExternSheet / BrtName arms", "all record lists", "Panic half only"),
@@ -111,9 +112,9 @@ NOT_COVERED = """   NO totality theorem (this is the "partial" of C06; these are
      * xls  Xls::parse_workbook as ONE function: the globals loop, the sheet loop, the string, name
        and formula arms have their own theorems, their composition (arm dispatch order, `formats`
        table lookup, VBA branch of Xls::new) has not;
-     * xlsb Xlsb::read_workbook as a whole (BrtBundleSh / relationship lookup) and read_styles
-       (BrtFmt / BrtXF): sampled only; xlsb next_formula record offsets (formula_rgce): sampled only;
-     * xlsx read_styles, pictures, xlsx / xlsb / ods `picture` feature, xls parse_pictures;
+     * xlsb Xlsb::read_workbook as a whole (BrtBundleSh / relationship lookup): sampled only;
+       xlsb next_formula record offsets (formula_rgce): sampled only;
+    * xlsx read_styles, pictures, xlsx / xlsb / ods `picture` feature, xls parse_pictures;
      * Sheets (auto.rs) dispatch and open_workbook_auto_from_rs: composition of the four readers;
      * de.rs (deserializer) on hostile ranges: not an entry point for file bytes;
      * real time and memory: the theorems bound iterations (fuel) and the sizes the models request;
